@@ -1086,6 +1086,40 @@ func (x *Exec) invoke(st *State, in ssa.Instruction, c *ssa.CallCommon, recv *Te
 			}
 		}
 		if allHave {
+			mutating := false
+			for _, t := range impls {
+				m := x.prog.SSA.LookupMethod(t, c.Method.Pkg(), c.Method.Name())
+				fc := x.prog.Contracts[funcKey(m)]
+				if !(fc.ModDeclared && len(fc.Modifies) == 0) || len(fc.GhostSets) > 0 {
+					mutating = true
+				}
+			}
+			if mutating {
+				// one path per implementation, each with the implementation's own (object-specific) contract
+				var res Value
+				for i, t := range impls {
+					m := x.prog.SSA.LookupMethod(t, c.Method.Pkg(), c.Method.Name())
+					fc := x.prog.Contracts[funcKey(m)]
+					cur := st
+					if i < len(impls)-1 {
+						cur = st.clone()
+					}
+					cur.assume(Eq(itag(recv), IntLit(x.prog.tagOf(t))), "dynamic type is "+t.String())
+					cur.trace = append(cur.trace, x.where(in)+": "+c.Method.Name()+" on "+t.String())
+					rv := x.unboxAs(recv, t)
+					all := append([]Value{rv}, args...)
+					r := x.applyContract(cur, in, fc, m, m.Signature, nil, all, resT, shortFuncName(funcKey(m)))
+					if cur != st {
+						if val, ok := in.(ssa.Value); ok && r != nil {
+							cur.regs[val] = r
+						}
+						x.pendingForks = append(x.pendingForks, cur)
+					} else {
+						res = r
+					}
+				}
+				return res
+			}
 			// result: fresh; for each implementation: tag == T ==> ensures
 			res := x.freshResult(st, c.Method.Name(), resT)
 			var tagAlts []*Term
